@@ -824,6 +824,26 @@ impl<'t> Program<'t> for Any<'t> {
     }
 }
 
+#[cfg(feature = "olson_sean_k_wax_verif")]
+impl<'t> Glob<'t> {
+    /// Verification hook: text of the compiled regular expression executed by `is_match` and
+    /// `matched`.
+    #[doc(hidden)]
+    pub fn verif_program_text(&self) -> &str {
+        self.program.as_str()
+    }
+}
+
+#[cfg(feature = "olson_sean_k_wax_verif")]
+impl<'t> Any<'t> {
+    /// Verification hook: text of the compiled regular expression executed by `is_match` and
+    /// `matched`.
+    #[doc(hidden)]
+    pub fn verif_program_text(&self) -> &str {
+        self.program.as_str()
+    }
+}
+
 // TODO: It may be useful to use dynamic dispatch via trait objects instead. This would allow for a
 //       variety of types to be composed in an `any` call and would be especially useful if
 //       additional combinators are introduced.
